@@ -2,7 +2,7 @@ SPEC = {
     "props": "Props/C09.v",
     "check_vo": ["Model/CodecCheck.vo"],
     "driver": "c09",
-    "component": "network decoders (pppoe, dhcpv6, dhcp option 82, ztp option 43, ha SSE, nat ALG)",
+    "component": "network decoders and handler glue (pppoe incl. the receive-loop body and the session table, dhcpv6 incl. lease state, dhcp option 82, ztp option 43, ha SSE, nat ALG)",
     "driver_timeout": 2400,
     "clauses": {0: "no-panic: no call ends in a recovered panic (index / slice bounds violation)",
                 1: "no-hang: every call returns (bound linear in the input length; the session-id scan within 65537 probes)"},
@@ -12,21 +12,27 @@ SPEC = {
         "NAT ALG: the Model covers the pass-through path only; whether a payload was rewritten is reported by the harness (oracle), the rewritten bytes are not compared",
         "RADIUS CoA/Disconnect datagrams (pkg/radius/coa.go) are modelled and proved under C15 (Model/Coa.v), not here",
         "LCP/IPCP/IPv6CP ReceivePacket: the Model covers decoding, guarded option reads, Echo-Reply and Code-Reject construction, the close path of critical Code-Reject / Protocol-Reject of LCP (state + Terminate-Request) and unknown-code-leaves-state; the other state transitions are C11's subject (harness reads state and lastIdentifier from the real object); every call plus a follow-up GetState() runs under a 2 s limit",
-        "CreateSession: table_wf (fewer than 65535 live sessions leave an id of 1..65535 free) is a hypothesis of the theorem (pigeonhole on a uint16-keyed Go map), exercised on concrete tables by the harness",
+        "CreateSession: the session table is modelled as a Go map = key list without duplicates whose length is len(m.sessions) (NoDup is the representation invariant of a map); the pigeonhole fact table_wf is a theorem (C09_table_pigeonhole), so termination, capacity and the PADR-flood theorems hold for every table state. The tie reaches near-full tables through the verif fill hook (entries 9 and 14), not through 65534 real PADRs",
+        "nil pointers: a Go pointer that may be nil is an option in the Model and every dereference is deref (Panic on None); which pointers can be nil (ParseDUID's result, map lookups, buildReply/buildAdvertise results, GetOption results) was read off the code by hand",
+        "DHCPv6 handlers with lease state (entry 28): the lease state is reached with real datagrams only; pool membership of a confirmed address and pool exhaustion do not change the projected counters (the Model dereferences the lease for every well-formed IAAddr, i.e. is stricter than the code)",
+        "PPPoE receive loop (entry 15): frames are injected through a verif socket into the real receiveLoop; the frame's source MAC is the session owner's (as for entries 7/8)",
+        "handlers behind third-party decoders have no Model and are fuzzed on the implementation only under recover() + time limit (entry 40: dhcpv4.FromBytes -> dhcp.Server.handleDHCP on one shared server with a /28 pool; entry 41: ha handleSSEData); not covered at all: pkg/slaac RS handler, pkg/dns upstream replies, pkg/routing ICMP probe replies, pkg/pool peer HTTP handlers (C17), ha HTTP handlers, ZTP/agent bootstrap HTTP bodies (encoding/json), cmd/bng demo API",
         "memory exhaustion and Go runtime behaviour are outside the Model; wall-clock limits (3-8 s per stateful call) stand in for 'completes within a bound' on the implementation side",
         "pure decoders are called without a timeout: a hang there would stall the driver, which the check reports as a failed run",
     ],
     "modelled": ["pkg/pppoe/protocol.go ParsePPPoEHeader ParseTags ParseLCPPacket ParseLCPOptions (+serializers)",
                  "pkg/pppoe/server.go handleDiscovery handlePADI/PADR/PADT (projection), handleSession handleLCP handlePAP handleIPCP (projection)",
                  "pkg/pppoe/lcp.go ipcp.go ipv6cp.go ReceivePacket decoding paths", "pkg/pppoe/auth.go receivePAP handlePAPAuthRequest receiveCHAP handleCHAPResponse",
-                 "pkg/pppoe/keepalive.go ParseEchoPacket", "pkg/pppoe/teardown.go ParsePADT", "pkg/pppoe/session.go CreateSession",
+                 "pkg/pppoe/keepalive.go ParseEchoPacket", "pkg/pppoe/teardown.go ParsePADT", "pkg/pppoe/session.go CreateSession (every table state; sequences of calls; handlePADR on a table)",
+                 "pkg/pppoe/server.go receiveLoop body (runt check, Ethernet header slicing, destination filter, EtherType dispatch)",
+                 "pkg/dhcpv6/server.go handleSolicit/Request/Confirm/Renew/Rebind/Release/Decline/InformationRequest with lease state and nil-pointer semantics (ParseDUID result, lease lookup, buildReply/buildAdvertise result)",
                  "pkg/dhcpv6/protocol.go ParseMessage ParseOptions ParseIANA ParseIAPD ParseIAAddress ParseIAPrefix ParseDUID", "pkg/dhcpv6/server.go receiveLoop body + handleMessage dispatch and option walks",
                  "pkg/dhcp/server.go parseOption82", "pkg/ztp/client.go parseVendorOptions", "pkg/ha/sync.go connectToStream line slicing", "pkg/nat/alg.go pass-through path"],
 }
 
 MANIFEST = {
-    "text": "Byte-level Models with Go slice semantics (index and slice expressions can Panic, loops have fuel and an iteration counter, spare buffer capacity is explicit) of every network-facing decoder and handler anchored by C09: PPPoE header/tag/LCP packet/option parsers, the PPPoE server's discovery and session frame glue incl. PAP, ParsePADT, ParseEchoPacket, ReceivePacket of the LCP/IPCP/IPv6CP automata in every state, PAP/CHAP, the session-id allocator, DHCPv6 message/option/IA_NA/IA_PD/IAAddr/IAPrefix/DUID parsers and the server's datagram glue, DHCP option 82, ZTP option 43, the HA SSE line reader, NAT ALG pass-through. Theorems, for every byte string and every state parameter: no Panic and no Hang for every entry point (one dispatcher theorem plus named ones), results independent of bytes outside the input where a receive buffer is re-sliced, loop iterations bounded linearly in the input length, session-id scan terminates within 65537 probes and issues only free non-zero ids. Six defects reproduced on the real code (five slice panics from one malformed length field each, one unbounded scan) were repaired by one-line fix commits; their witnesses stay in the corpus. Every run calls the real code under recover() on exhaustive short inputs, boundary-value mutations of valid encodings, random strings up to 2 KiB, every LCP code in every automaton state, and compares outcome class and parsed structure with the Model evaluated inside Coq.",
-    "note": "Theorems are about the hand-written Models (as the code stands after the fix commits); the tie to the Go code is the differential run (sampled + exhaustive for inputs of length <= 2, 3 on the implementation in the thorough tier). Third-party parsers (insomniacslk/dhcp, layeh radius, encoding/json, regexp) are oracles. CoA datagrams are covered by C15. State transitions of the automata are C11's subject. CreateSession termination is proved under the pigeonhole hypothesis table_wf.",
+    "text": "Byte-level Models with Go slice semantics (index and slice expressions can Panic, loops have fuel and an iteration counter, spare buffer capacity is explicit) of every network-facing decoder and handler anchored by C09: PPPoE header/tag/LCP packet/option parsers, the PPPoE server's discovery and session frame glue incl. PAP, ParsePADT, ParseEchoPacket, ReceivePacket of the LCP/IPCP/IPv6CP automata in every state, PAP/CHAP, the session-id allocator, DHCPv6 message/option/IA_NA/IA_PD/IAAddr/IAPrefix/DUID parsers and the server's datagram glue, DHCP option 82, ZTP option 43, the HA SSE line reader, NAT ALG pass-through; and of the handler glue between decoder and state change: the PPPoE receive-loop body on a raw Ethernet frame, the DHCPv6 handlers with lease state where every pointer that can be nil is an option and every dereference can Panic, the session table as a Go map. Theorems, for every byte string and every state parameter: no Panic and no Hang for every entry point (one dispatcher theorem plus named ones), results independent of bytes outside the input where a receive buffer is re-sliced, loop iterations bounded linearly in the input length; the session-id scan terminates within 65537 probes, issues only free non-zero ids and issues one whenever fewer than 65535 are live, for EVERY table state (pigeonhole proved, no hypothesis on the table) and for PADR floods of any length. Six defects reproduced on the real code (five slice panics from one malformed length field each, one unbounded scan) were repaired by one-line fix commits; their witnesses stay in the corpus. Every run calls the real code under recover() on exhaustive short inputs, boundary-value mutations of valid encodings (truncation at every offset, every length-field position at 0,1,2,3,len-1,len,len+1,0xFFFF), containers nested in themselves to depth 9, random strings up to 2 KiB, every LCP code in every automaton state, every optional DHCPv6 option absent/empty/short/valid in every message type against servers with and without lease state and with exhausted pools, session tables filled to every boundary by a fast-forward hook, and compares outcome class and parsed structure with the Model evaluated inside Coq; handlers behind third-party parsers (DHCPv4 handleDHCP, HA handleSSEData) are fuzzed on the implementation only.",
+    "note": "Theorems are about the hand-written Models (as the code stands after the fix commits); the tie to the Go code is the differential run (sampled + exhaustive for inputs of length <= 2, 3 on the implementation in the thorough tier). Third-party parsers (insomniacslk/dhcp, layeh radius, encoding/json, regexp) are oracles. CoA datagrams are covered by C15. State transitions of the automata are C11's subject. Which Go pointers can be nil is read off the code by hand. Not covered: slaac, dns, routing probes, pool peer HTTP, HA HTTP handlers, bootstrap HTTP bodies (see docs/C09.md inventory).",
     "technique": "Rocq proof (checked-access monad, fuel induction with linear step bounds, tail-independence lemmas) + differential correspondence under recover() with vm_compute evaluation of the Model, exhaustive small input spaces",
     "design_ref": "DESIGN.md §8 C09",
 }
@@ -53,6 +59,6 @@ def run(ctx):
         e["coverage"]["impl_only_by_generator"] = by_gen
         e["coverage"]["exhaustive_blocks"] = blocks
         e["coverage"]["exhaustive"] = True
-        e["coverage"]["exhaustive_note"] = "all byte strings of length <= 2 per entry point (session glue and SSE reader <= 1), evaluated on the real code and on the Model"
+        e["coverage"]["exhaustive_note"] = "all byte strings of length <= 2 per entry point (session glue, receive loop and SSE reader <= 1), evaluated on the real code and on the Model"
         json.dump(e, open(ev, "w"), indent=1)
     return rc
